@@ -43,7 +43,7 @@ def r1_counter_key(ctx, rep):
     """Decided on the event trace of NameSelector.get_name with its helper methods inlined: which expressions index the
     two levels of the ~N counter table, which name-merging steps the stem goes through, and how symbols are replaced."""
     py = ctx.py
-    fn = py.func("NameSelector.get_name")
+    fn = py.ifunc("NameSelector.get_name")       # canonical form: loops over literal tables unrolled, reduce() lowered
     ev = astq.trace(fn, astq.class_method_resolver(py, "NameSelector", "sourceform"))
     idx = {id(e): i for i, e in enumerate(ev)}
 
@@ -149,9 +149,24 @@ def r1_counter_key(ctx, rep):
             v = py.eval_const(c, env)
             if v is PyModel._UNKNOWN and isinstance(c, ast.Attribute) and isinstance(c.value, ast.Name) and c.value.id in ("self", "cls", "NameSelector"):
                 v = cenv.get(c.attr, PyModel._UNKNOWN)
+            if isinstance(v, (list, tuple)) and v and all(isinstance(r_, (list, tuple)) and len(r_) == 2 for r_ in v) and \
+                    len({r_[0] for r_ in v}) == len(v):
+                v = dict(v)           # a table of (symbol, replacement) pairs
             if isinstance(v, dict) and v:
                 table = {(chr(k) if isinstance(k, int) else k): x for k, x in v.items()}
                 tnode = c
+    if table is None:
+        # a chain of literal replacements on the stem (an unrolled loop over a table of pairs)
+        pairs = []
+        for e in ev:
+            if e.kind == "assign" and e.value is not None and isinstance(e.value, ast.Call) and isinstance(e.value.func, ast.Attribute) \
+                    and e.value.func.attr == "replace" and len(e.value.args) == 2 and e.text(e.value) in closure:
+                a, b = (py.eval_const(x, env) for x in e.value.args)
+                if isinstance(a, str) and isinstance(b, str):
+                    pairs.append((a, b))
+                    tnode = e.node
+        if pairs and len({a for a, _ in pairs}) == len(pairs):
+            table = dict(pairs)
     if uses_resub or table is None:
         rep.ob("symbol replacement injective", False,
                "symbols are no longer replaced through a one-to-one table (regex substitution with a common "
@@ -274,8 +289,21 @@ def r3_anchor_and_registry(ctx, rep):
     # memo: an item asked twice gets the same name
     fn = py.func("NameSelector.get_name")
     ev = astq.trace(fn, astq.class_method_resolver(py, "NameSelector", "sourceform"))
-    memo_ret = [e for e in ev if e.kind == "return" and e.value is not None and e.text(e.value) == "self._items[item]"
-                and any(c == "item in self._items" for c in e.cond_texts())]
+    def memo_value(e) -> bool:
+        """the returned value is the stored name of the item, and the path knows that there is one: `item in self._items` ...
+        `self._items[item]`, or `(known := self._items.get(item)) is not None` ... `known`"""
+        t = e.text(e.value)
+        conds = e.cond_texts()
+        if t == "self._items[item]":
+            return any(c == "item in self._items" for c in conds)
+        if isinstance(e.value, ast.Name):
+            srcs = [ast.unparse(n.value) for n in ast.walk(fn) if isinstance(n, ast.NamedExpr) and n.target.id == t] + \
+                   [ast.unparse(v) for _t, v in astq.assignments(fn, t) if v is not None]
+            if srcs and all(x in ("self._items.get(item)", "self._items.get(item, None)") for x in srcs):
+                return any(re.fullmatch(r"\(?(%s|\(%s := self\._items\.get\(item(, None)?\)\))\)? is not None" % (t, t), c) or c == t
+                           or re.fullmatch(r"\(%s := self\._items\.get\(item(, None)?\)\)" % t, c) for c in conds)
+        return False
+    memo_ret = [e for e in ev if e.kind == "return" and e.value is not None and memo_value(e)]
     store = [e for e in ev if e.kind == "assign" and e.target == "self._items[item]"]
     last_ret = [e for e in ev if e.kind == "return" and e.value is not None and e not in memo_ret]
     ok = bool(memo_ret) and bool(store) and bool(last_ret) and all(e.text(e.value) == store[-1].text(store[-1].value) for e in last_ret)
@@ -288,9 +316,26 @@ def r4_dir_ident_overrides(ctx, rep):
     for cls, ci in py.classes.items():
         if "get_dir" in ci.methods and cls != "FortranBase" and not cls.startswith("External"):
             g = ast.unparse(ci.methods["get_dir"])
-            conds = [ast.unparse(n.test) for n in ast.walk(ci.methods["get_dir"]) if isinstance(n, ast.If)]
+            def props(fn_) -> List[str]:
+                """the atomic propositions the function branches on (if statements and conditional expressions; negation
+                and the order of the branches do not matter)"""
+                out = []
+
+                def atoms(t):
+                    if isinstance(t, ast.BoolOp):
+                        for v in t.values:
+                            atoms(v)
+                    elif isinstance(t, ast.UnaryOp) and isinstance(t.op, ast.Not):
+                        atoms(t.operand)
+                    else:
+                        out.append(ast.unparse(t))
+                for n in ast.walk(fn_):
+                    if isinstance(n, (ast.If, ast.IfExp)):
+                        atoms(n.test)
+                return out
+            conds = props(ci.methods["get_dir"])
             if "ident" in ci.methods:
-                iconds = [ast.unparse(n.test) for n in ast.walk(ci.methods["ident"]) if isinstance(n, ast.If)]
+                iconds = props(ci.methods["ident"])
                 ok = set(conds) == set(iconds) or not conds
                 rep.ob(f"{cls}: get_dir/ident overrides agree", ok,
                        f"both redirect under {conds}" if ok else
